@@ -278,6 +278,17 @@ def run(ck, m):
             ck.ob("R4", sa[0], norm(v) == "style_args" and len(zs) == 1 and norm(zs[0].targets[0].value) == "style_args" and zs[0].lineno > sa[0].lineno or (len(zs) == 1 and norm(zs[0].targets[0].value) in ("style_args", "self._ti_style_args")),
                   "the widget's z-index must be written into the very dict used as self._ti_style_args (after the format specifier was parsed)", stmt="UrwidImage.__init__: widget-owned style args take precedence")
 
+    # blend=False (delete what is under the cursor before placing an image line) is what removes the stale placement when urwid re-emits a row at an
+    # unchanged position; it is applied to every kitty widget except on konsole - not only when some version is known (forced / preset support, a widget
+    # created before detection ran)
+    from tiv.sem import tconds as _tcw
+    bl_ = [st for t, st in stores_in(ast.Module(body=ini_w.body, type_ignores=[])) if isinstance(t, ast.Subscript) and norm(t.slice) == "'blend'" and norm(st.value) == "False"]
+    ck.expect(len(bl_) == 1, f"UrwidImage.__init__: the `blend = False` style argument not found ({len(bl_)})")
+    for st in bl_:
+        # (type tests of the arguments - validation, the style dispatch - and the konsole exception are the only conditions)
+        extra_ = sorted(c_ for c_ in _tcw(ini_w, st) if not (c_.startswith(("isinstance(", "not isinstance(")) or "get_terminal_name_version()[0]" in c_))
+        ck.ob("R2", st, not extra_, f"the widget's `blend=False` is applied only under {[e_[:60] for e_ in extra_]}: whenever that does not hold the widget renders with blend=True and no delete-at-cursor, so a row "
+              "re-emitted at an unchanged position stacks a new placement on the stale one", stmt="UrwidImage.__init__: blend=False for every kitty widget not on konsole")
 
 
 MUTANTS = [
